@@ -2,6 +2,10 @@
   Lemmas/RoundTrip: parsing the text that `format` produced, with the same picture, returns the value.
   Part 1: the six fixed pictures of the serde human-readable form (C15).
   Part 2 (stretch): a decidable class of "lossless" pictures (C06).
+
+  Helper files: RoundTripValid (range of whatever `parse` returns), RoundTripLeaf (digit runs, `parse_number`),
+  RoundTripFields (one picture token at a time), RoundTripCap (bounded sink), RoundTripSer (the six serialised texts),
+  RoundTripParse (the six texts parsed back).
 -/
 import SqlDt.Lemmas.RenderAll
 import SqlDt.Lemmas.WellFormed
@@ -9,29 +13,127 @@ import SqlDt.Lemmas.NoPanic
 import SqlDt.Lemmas.UnitsModel
 import SqlDt.Props.C13
 import SqlDt.Model.Serde
+import SqlDt.Lemmas.RoundTripValid
+import SqlDt.Lemmas.RoundTripParse
 namespace SqlDt.Lemmas
 open SqlDt Gen Spec Parser
 
 /-! ### Part 1: serde pictures -/
 
+/-! ### every valid value is built from components in range -/
+
+theorem decomp_D (v : Int) (hv : isValidDate v) : ∃ y m d, ValidYMD y m d ∧ v = dayNumber y m d := by
+  obtain ⟨h1, h2⟩ := C01.extract_roundtrip v hv
+  refine ⟨_, _, _, h1, ?_⟩
+  have h3 := (C01.tryFromYmd_roundtrip _ _ _ h1).1
+  rw [h2] at h3; exact (Except.ok.inj h3)
+
+theorem decomp_T (t : Int) (ht : 0 ≤ t ∧ t < 86400000000) :
+    ∃ h mi s us, (0 ≤ h ∧ h < 24) ∧ (0 ≤ mi ∧ mi < 60) ∧ (0 ≤ s ∧ s < 60) ∧ (0 ≤ us ∧ us < 1000000) ∧
+      t = Time.fromHmsUnchecked h mi s us ∧ us = t % 1000000 := by
+  refine ⟨t / 3600000000, t % 3600000000 / 60000000, t % 60000000 / 1000000, t % 1000000, ?_, ?_, ?_, ?_, ?_, rfl⟩ <;>
+    (try unfold Time.fromHmsUnchecked USECONDS_PER_HOUR USECONDS_PER_MINUTE USECONDS_PER_SECOND) <;> omega
+
+theorem decomp_TS (v : Int) (hv : isValidTimestamp v) :
+    ∃ y m d h mi s us, ValidYMD y m d ∧ (0 ≤ h ∧ h < 24) ∧ (0 ≤ mi ∧ mi < 60) ∧ (0 ≤ s ∧ s < 60) ∧
+      (0 ≤ us ∧ us < 1000000) ∧ v = tsOf y m d h mi s us ∧ us = v % 1000000 := by
+  rw [isValidTimestamp_iff] at hv
+  have hd : isValidDate (v / 86400000000) := by rw [isValidDate_iff]; omega
+  obtain ⟨y, m, d, hymd, e1⟩ := decomp_D _ hd
+  obtain ⟨h, mi, s, us, hh, hm, hs, hu, e2, e3⟩ := decomp_T (v % 86400000000) (by omega)
+  refine ⟨y, m, d, h, mi, s, us, hymd, hh, hm, hs, hu, ?_, ?_⟩
+  · unfold tsOf; rw [← e1, ← e2]; omega
+  · omega
+
+theorem decomp_YM (v : Int) (hv : IntervalYM.isValidMonths v) :
+    ∃ neg y mo, (0 ≤ y ∧ y ≤ 178000000) ∧ (0 ≤ mo ∧ mo < 12) ∧ (neg = true → y * 12 + mo ≠ 0) ∧
+      y * 12 + mo ≤ 2136000000 ∧ v = ymOf neg y mo := by
+  unfold IntervalYM.isValidMonths INTERVAL_MAX_MONTH at hv
+  by_cases hn : v < 0
+  · refine ⟨true, (-v) / 12, (-v) % 12, ?_, ?_, ?_, ?_, ?_⟩ <;> (try unfold ymOf) <;> (try simp only [↓reduceIte]) <;> omega
+  · refine ⟨false, v / 12, v % 12, ?_, ?_, ?_, ?_, ?_⟩ <;> (try unfold ymOf) <;> (try simp) <;> omega
+
+theorem decomp_DT (v : Int) (hv : IntervalDT.isValidUsecs v) :
+    ∃ neg d h mi s us, (0 ≤ d ∧ d ≤ 100000000) ∧ (0 ≤ h ∧ h < 24) ∧ (0 ≤ mi ∧ mi < 60) ∧ (0 ≤ s ∧ s < 60) ∧
+      (0 ≤ us ∧ us < 1000000) ∧ (neg = true → dtMag d h mi s us ≠ 0) ∧ dtMag d h mi s us ≤ 8640000000000000000 ∧
+      v = dtOf neg d h mi s us := by
+  unfold IntervalDT.isValidUsecs INTERVAL_MAX_USECONDS at hv
+  have key : ∀ a : Int, 0 ≤ a → a ≤ 8640000000000000000 →
+      ∃ d h mi s us, (0 ≤ d ∧ d ≤ 100000000) ∧ (0 ≤ h ∧ h < 24) ∧ (0 ≤ mi ∧ mi < 60) ∧ (0 ≤ s ∧ s < 60) ∧
+        (0 ≤ us ∧ us < 1000000) ∧ dtMag d h mi s us = a := by
+    intro a h0 h1
+    refine ⟨a / 86400000000, a % 86400000000 / 3600000000, a % 3600000000 / 60000000, a % 60000000 / 1000000,
+      a % 1000000, ?_, ?_, ?_, ?_, ?_, ?_⟩ <;> (try unfold dtMag) <;> omega
+  by_cases hn : v < 0
+  · obtain ⟨d, h, mi, s, us, a1, a2, a3, a4, a5, e⟩ := key (-v) (by omega) (by omega)
+    refine ⟨true, d, h, mi, s, us, a1, a2, a3, a4, a5, ?_, ?_, ?_⟩
+    · intro _; omega
+    · omega
+    · unfold dtOf; simp only [↓reduceIte]; omega
+  · obtain ⟨d, h, mi, s, us, a1, a2, a3, a4, a5, e⟩ := key v (by omega) (by omega)
+    refine ⟨false, d, h, mi, s, us, a1, a2, a3, a4, a5, ?_, ?_, ?_⟩
+    · intro hx; cases hx
+    · omega
+    · unfold dtOf; simp only [Bool.false_eq_true, ↓reduceIte]; omega
+
+
+/-- Per type: the serialised text, its length bound and its round trip, in one statement. -/
+theorem serde_roundtrip (ty : Ty) (v : Int) (hv : ty.Valid v) :
+    ∃ text, Serde.serStr ty v = .ok text ∧ text.length ≤ 32 ∧ ∀ now, Serde.deStr ty text now = .ok v := by
+  cases ty <;> simp only [Ty.Valid] at hv
+  · -- D
+    obtain ⟨y, m, d, hymd, rfl⟩ := decomp_D v hv
+    obtain ⟨a, b⟩ := serStr_D y m d hymd
+    exact ⟨_, a, b, fun now => deStr_D y m d hymd now⟩
+  · -- T
+    obtain ⟨h, mi, s, us, hh, hm, hs, hu, rfl, _⟩ := decomp_T v ((isValidTime_iff v).1 hv)
+    obtain ⟨a, b⟩ := serStr_T h mi s us hh hm hs hu
+    exact ⟨_, a, b, fun now => deStr_T h mi s us hh hm hs hu now⟩
+  · -- TS
+    obtain ⟨y, m, d, h, mi, s, us, hymd, hh, hm, hs, hu, rfl, _⟩ := decomp_TS v hv
+    obtain ⟨a, b⟩ := serStr_TS y m d h mi s us hymd hh hm hs hu
+    exact ⟨_, a, b, fun now => deStr_TS y m d h mi s us hymd hh hm hs hu now⟩
+  · -- YM
+    obtain ⟨neg, y, mo, hy, hm, hz, hval, rfl⟩ := decomp_YM v hv
+    obtain ⟨a, b⟩ := serStr_YM neg y mo hy hm hz
+    exact ⟨_, a, b, fun now => deStr_YM neg y mo hy.1 hm hval now⟩
+  · -- DT
+    obtain ⟨neg, d, h, mi, s, us, hd, hh, hm, hs, hu, hz, hval, rfl⟩ := decomp_DT v hv
+    obtain ⟨a, b⟩ := serStr_DT neg d h mi s us hd hh hm hs hu hz
+    exact ⟨_, a, b, fun now => deStr_DT neg d h mi s us hd.1 hh hm hs hu hval now⟩
+  · -- OD
+    obtain ⟨lo, hi, hsec⟩ := (C16.isValidDate_iff v).1 hv
+    have hts : isValidTimestamp v := (isValidTimestamp_iff v).2 ⟨lo, hi⟩
+    obtain ⟨y, m, d, h, mi, s, us, hymd, hh, hm, hs, hu, e, eus⟩ := decomp_TS v hts
+    have hus : us = 0 := by omega
+    subst hus
+    subst e
+    obtain ⟨a, b⟩ := serStr_OD y m d h mi s hymd hh hm hs
+    exact ⟨_, a, b, fun now => deStr_OD y m d h mi s hymd hh hm hs now⟩
+
+
 /-- Human-readable serialisation never fails for a valid value: the text fits the 32-byte stack buffer. -/
 theorem serStr_ok (ty : Ty) (v : Int) (hv : ty.Valid v) : ∃ text, Serde.serStr ty v = .ok text ∧ text.length ≤ 32 := by
-  sorry
+  obtain ⟨t, a, b, _⟩ := serde_roundtrip ty v hv
+  exact ⟨t, a, b⟩
 
 /-- Human-readable round trip: for EVERY valid value of EVERY type, deserialising the serialised text returns the value
     (under any clock – the fixed pictures never consult it). -/
 theorem deStr_serStr (ty : Ty) (v : Int) (hv : ty.Valid v) (now : Clock) (text : Bytes)
     (h : Serde.serStr ty v = .ok text) : Serde.deStr ty text now = .ok v := by
-  sorry
+  obtain ⟨t, a, _, c⟩ := serde_roundtrip ty v hv
+  rw [a] at h
+  cases h
+  exact c now
 
 /-- Whatever `parse` returns – for ANY picture, text and clock – lies inside the type's documented range. -/
 theorem parse_valid (ty : Ty) (fields : List Field) (input : Bytes) (now : Clock) (v : Int) (r : Nat)
     (h : Parser.parse ty fields input now = .ok (v, r)) : ty.Valid v := by
-  sorry
+  exact parse_valid' ty fields input now v r h
 
 /-- Whatever human-readable text is accepted, the decoded value is inside the type's documented range
     (whole seconds for the Oracle-style date). -/
 theorem deStr_valid (ty : Ty) (text : Bytes) (now : Clock) (v : Int) (h : Serde.deStr ty text now = .ok v) : ty.Valid v := by
-  sorry
+  exact deStr_valid' ty text now v h
 
 end SqlDt.Lemmas
